@@ -115,7 +115,7 @@ CHECKS["C17"] = dict(
 
 CHECKS["C11"] = dict(
    technique="stateless schedule exploration under a hand-written cooperative scheduler (all interleavings at callback granularity, preemption-bounded for 3 threads) plus an exhaustive-over-pairs free-running pass under the Go race detector",
-   text="Two logical threads running every pair of 11 callback-bearing operations (and each against 23 callback-free ones) on the same frame or on a slice / sorted copy / column copy of it are executed under EVERY interleaving of their scheduling points (operation start/end and each user callback invocation); three threads under preemption bound 2 (3). Each operation must return what it returns alone and the shared frame must be unchanged. Because qframe has no synchronisation operations the scheduler cannot interleave inside an operation, so unsynchronised accesses are decided by a separate free-running pass of every pair and self-pair of all 34 operations x 4 sharing relations in a -race build (happens-before detection makes the verdict schedule-independent for two synchronisation-free operations forked from a barrier).",
+   text="Two logical threads running every pair of 12 callback-bearing operations (and each against 23 callback-free ones) on the same frame, on a slice / sorted copy / column copy of it, or both on one frame that was itself derived by adding columns are executed under EVERY interleaving of their scheduling points (operation start/end and each user callback invocation); three threads under preemption bound 2 (3). Each operation must return what it returns alone and the shared frame must be unchanged. Because qframe has no synchronisation operations the scheduler cannot interleave inside an operation, so unsynchronised accesses are decided by a separate free-running pass of every pair and self-pair of all 35 operations x 5 sharing relations in a -race build (happens-before detection makes the verdict schedule-independent for two synchronisation-free operations forked from a barrier).",
    note="Trusted: Go race detector (4 shadow accesses per word); the cooperative scheduler in core/sched.go (replay of a prefix must reproduce the recorded enabled sets). Access-level interleavings are not enumerated; see DESIGN.md C11.",
    design="5/C11")
 
